@@ -43,6 +43,8 @@ pub struct Profile {
     pub fancy_csi: bool,
     pub end_probe: bool,
     pub help_lines: bool,
+    /// see RAW_TEXT
+    pub raw_text: bool,
 }
 
 impl Profile {
@@ -73,17 +75,34 @@ impl Profile {
             fancy_csi: true,
             end_probe: false,
             help_lines: false,
+            raw_text: false,
         }
     }
+}
+
+thread_local! {
+    /// application texts may hold any character at all (controls, ESC, NUL, DEL, other line separators): only for workloads whose
+    /// clauses do not need the terminal emulator to understand the output (C13's byte-exact framing)
+    static RAW_TEXT: std::cell::Cell<bool> = const { std::cell::Cell::new(false) };
 }
 
 pub fn gen_text(rng: &mut Rng) -> String {
     const T: [&str; 10] = ["x", "y", " ", "é", "€", "𐍈", "\n", "\r\n", "-", "\r"];
     const W: [usize; 10] = [10, 6, 4, 3, 3, 2, 6, 2, 2, 1];
+    const RAW: [&str; 16] = ["\t", "\x1b", "\x1b[", "\0", "\x7f", "\x0c", "\x08", "\x0b", "\u{85}", "\u{2028}", "\n\r", "\u{9b}", "\x07", "\u{feff}", "\x01", "\u{a0}"];
+    let raw = RAW_TEXT.with(|c| c.get());
     let n = if rng.chance(12) { 0 } else { rng.range(1, 8) };
     let mut s = String::new();
     for _ in 0..n {
-        s.push_str(T[rng.weighted(&W)]);
+        if raw && rng.chance(12) {
+            if rng.chance(30) {
+                s.push(random_scalar(rng));
+            } else {
+                s.push_str(RAW[rng.below(RAW.len())]);
+            }
+        } else {
+            s.push_str(T[rng.weighted(&W)]);
+        }
     }
     s
 }
@@ -286,6 +305,7 @@ pub fn gen_motif(rng: &mut Rng, p: &Profile, dict: &[String], cmd: usize) -> Vec
 /// Generate one session. Keys are rendered to bytes; application calls are injected
 /// between keys, or (profile.inject_between_bytes) between any two bytes.
 pub fn gen_session(rng: &mut Rng, p: &Profile) -> (SessionCfg, Vec<Op>) {
+    RAW_TEXT.with(|c| c.set(p.raw_text));
     let set = *rng.pick(&p.sets);
     // boundary grid most of the time, any size 0..=48 otherwise (a bug may need a size off the grid)
     let off_grid = p.cmd_sizes.len() > 6 && rng.chance(35);
@@ -445,6 +465,7 @@ fn base36(mut i: usize) -> String {
 /// tokens, of submitted distinct lines, of recall steps -- so that line lengths, cursor positions, token counts, entry
 /// counts, entry offsets and terminal columns all cross 255 / 256 (and 511 / 512, 1023 / 1024).
 pub fn gen_large_session(rng: &mut Rng, p: &Profile) -> (SessionCfg, Vec<Op>) {
+    RAW_TEXT.with(|c| c.set(p.raw_text));
     let set = *rng.pick(&p.sets);
     let size = |rng: &mut Rng| if rng.chance(30) { rng.range(200, 1100) } else { *rng.pick(&LARGE_SIZES) };
     let cfg = SessionCfg {
